@@ -9,6 +9,13 @@ class ParseError(Exception):
     pass
 
 
+class SelectionAbandoned(ParseError):
+    """a weighted selection ended with a rejected proposal: no candidate was accepted through the monitored generator"""
+    def __init__(self, props, nxt):
+        ParseError.__init__(self, 'selection ended after %d rejected proposals without accepting one (next draw: %r)' % (len(props), nxt))
+        self.props = props
+
+
 class Cur(object):
     def __init__(self, log):
         self.log = [e for e in log if e[0] != 'opaque']
@@ -37,6 +44,8 @@ def parse_choose(cur, weighted):
     props = []
     while True:
         p0 = cur.pos()
+        if props and not cur.done() and cur.peek()[0] != 'choice':
+            raise SelectionAbandoned(props, cur.peek())
         e = cur.next('choice')
         pop = e[1]
         c = pop[e[2]]
